@@ -30,6 +30,7 @@ def exempt_family():
         # (`… | eval` under errexit leaves bash with status 1 instead of the failing status: keep eval one level down)
         "pipe_last": lambda c: ("Pi", [0], ("Gr", c) if c[0] == "Ev" else c),
         "pipe_nonfinal_fail": lambda c: ("S", [("Pi", [3, 0], L(33, 0)), c]),
+        "lastpipe_last": lambda c: ("S", [("O", "l", True), ("Pi", [0], ("Gr", c) if c[0] == "Ev" else c), L(35, 0)]),
     }
     wraps = {
         "none": lambda c: c,
